@@ -4,9 +4,16 @@ META = {
                     "(POSIX; this is what harness/C13/rofile.h models -- trusted environment)",
                     "handles are built by the harness: 1 group, 1 KiB blocks, 16 inodes; EXT2_FLAG_RW is the only flag bit forced (to 0)"],
     "outside": [
-        "the tools' main() functions: option -> flag mapping (e2fsck -n -> E2F_OPT_READONLY -> no EXT2_FLAG_RW; debugfs without -w; "
-        "dumpe2fs; tune2fs -l; resize2fs -P; e2image; e2freefrag; e2undo -n; mke2fs -n), e2fsck's skip-journal-recovery and "
-        "release_orphan_inodes decisions -- this is where the property mostly lives; C13 here is a library-level slice",
+        "tool main()s other than e2fsck and resize2fs: debugfs without -w, dumpe2fs, tune2fs -l, e2image, e2freefrag, mke2fs -n "
+        "(e2undo -n: harness/E2UNDO); their option -> open-flag mapping is not encoded",
+        "e2fsck main(): decided with every pass/helper as a protocol stub (main_e2fsck_full) -- the read-only discipline INSIDE "
+        "check_super_block (release_orphan_inodes), e2fsck_check_ext3_journal, the passes, check_if_skip, show_stats, e2fsck_check_mmp "
+        "(the last three are cut_statics of unix.c and have no harness), get_backup_sb (opens with io flags 0 by inspection) is not; "
+        "fix_problem is assumed to answer no under -n for prompting problems; -c/-l/-L/-t options and the EBUSY device-size restart "
+        "are excluded; one restart reason per query",
+        "e2fsck PRS(): 18 concrete argv sets (no -b/-B/-C/-I/-P/-j numeric or lookup arguments, no long clusters beyond those listed)",
+        "resize2fs main(): 9 concrete argv sets; with -P the code after a successful open is calculate_minimum_resize_size (stubbed, "
+        "resize2fs.c not encoded) and the exit; -d debug flags (atoi) not driven",
         "ext2fs_close2() of a read-only DIRTY handle (closefs.c does not test EXT2_FLAG_RW): decided in close_dirty only for a plain "
         "one-group geometry, empty cache and fs->orig_super == NULL; the shadow-superblock route of write_primary_superblock "
         "(word diff + write_byte, what a handle opened from the primary superblock takes) is encoded (-DORIG) but unsolved in 150 s -- "
@@ -184,7 +191,9 @@ MANIFEST = {
             "not write the journal superblock under E2F_OPT_READONLY. A unix_io channel whose descriptor came from the real open path "
             "without IO_FLAG_RW leaves the device byte array unchanged for one arbitrary operation from any valid cache state and "
             "reports the refusal; ext2fs_close2 of a read-only DIRTY handle over that channel fails without modifying the device. "
-            "The tools' own option handling is outside.",
+            "Tool level: e2fsck's real main() with every pass stubbed never opens RW/EXCLUSIVE and reaches none of its writers under "
+            "E2F_OPT_READONLY (all option words PRS can produce; PRS itself on 18 argv sets), and resize2fs -P opens O_RDONLY / "
+            "without RW|EXCLUSIVE and exits before any resize step (9 argv sets). Other tools' mains are outside.",
     "note": "Trusted: CBMC's C semantics, the counting io-manager stub, POSIX refusal of writes on O_RDONLY descriptors. "
             "ext2fs_close2 does not itself test EXT2_FLAG_RW before flushing a DIRTY handle: the barrier is the O_RDONLY descriptor "
             "(close_dirty, unix_ro, unix_open_mode, open_ro).",
